@@ -160,3 +160,6 @@ Definition scalar_reader (bin : bool) (all : vprops) (n : string) : option built
 Definition unclaimed_readers (bin : bool) (all : vprops) (bs : list built) (todo : vprops) : list built :=
   flat_map (fun p => if existsb (fun b => claims b (snd p)) bs then []
                      else match scalar_reader bin all (snd p) with Some x => [x] | None => [] end) todo.
+
+(* the integer an ascii index token of item type lt denotes (int: signed, uint: unsigned) *)
+Definition idx_ascii (lt : sty) (w : N) : Z := match lt with Int => signed32 w | _ => Z.of_N w end.
